@@ -442,17 +442,18 @@ enum {
 	B_IAT_OFF, B_IAT_ON, B_EXP_NEG, B_EXP_0, B_EXP_60, B_NBF_NEG, B_NBF_0, B_NBF_60, B_OFF_IAT_BAD,
 	B_KEY_NONE, B_KEY_OCT, B_KEY_ES, B_KEY_ES_PUB,
 	B_CB_NULL, B_CB_ADD, B_CB_SETKEY, B_CB_DELCLAIMS, B_CB_DROPKEY,
-	B_HSET_TYP_INT, B_EXP_BIG, B_NBF_BIG, B_CSET_REALS,
+	B_HSET_TYP_INT, B_EXP_BIG, B_NBF_BIG, B_CSET_REALS, B_EXP_MAX,
 	B_GEN_T0, B_GEN_T1, NBOPS
 };
 /* offsets beyond 2^31 and 2^32 seconds (time_t is 64 bits wide here) */
-#define OFF_EXP_BIG 3000000000L
-#define OFF_NBF_BIG 6311520000L
+/* beyond 32 bits and beyond what a double holds exactly: the sum with the (even) clock is odd and above 2^53 resp. 2^60 */
+#define OFF_EXP_BIG ((1L << 53) + 1)
+#define OFF_NBF_BIG ((1L << 60) + 1)
 static const char *bop_name[NBOPS] = { "header_set(typ,X)", "header_set(alg,none)", "header_set(kid,k)", "header_del(typ)", "header_del(all)", "claim_set(iat,7)", "claim_set(nbf,7)",
 	"claim_set(exp,7)", "claim_set(sub,s)", "claim_del(sub)", "claim_del(all)", "claim_set(exp,\"never\")", "claim_set(iat,true)", "enable_iat(0)", "enable_iat(1)", "time_offset(EXP,-5)", "time_offset(EXP,0)",
 	"time_offset(EXP,60)", "time_offset(NBF,-5)", "time_offset(NBF,0)", "time_offset(NBF,60)", "time_offset(IAT,1)!", "setkey(none,NULL)", "setkey(none,oct+HS256)",
 	"setkey(ES256,P-256 private)", "setkey(ES256,P-256 public)!", "setcb(NULL)", "setcb(adds claim+header)", "setcb(selects HS256 key)", "setcb(deletes all claims)", "setcb(withdraws key and alg)",
-	"header_set(typ,7)", "time_offset(EXP,3000000000)", "time_offset(NBF,6311520000)", "claim_set(JSON {exp:1.5,nbf:2.5,iat:3.5})",
+	"header_set(typ,7)", "time_offset(EXP,2^53+1)", "time_offset(NBF,2^60+1)", "claim_set(JSON {exp:1.5,nbf:2.5,iat:3.5})", "time_offset(EXP,LONG_MAX)",
 	"generate@T0", "generate@T0+1000" };
 
 static jwk_set_t *bk_oct, *bk_es, *bk_es_pub;
@@ -511,6 +512,7 @@ static void bmodel_step(bst_t *s, int op)
 		break;
 	case B_EXP_BIG: s->exp = OFF_EXP_BIG; break;
 	case B_NBF_BIG: s->nbf = OFF_NBF_BIG; break;
+	case B_EXP_MAX: s->exp = LONG_MAX; break;
 	case B_OFF_IAT_BAD: break;
 	case B_KEY_NONE: s->key = K_NONE; break;
 	case B_KEY_OCT: s->key = K_OCT; break;
@@ -588,6 +590,7 @@ static int bimpl_step(jwt_builder_t *b, int op)
 	}
 	case B_EXP_BIG: return jwt_builder_time_offset(b, JWT_CLAIM_EXP, OFF_EXP_BIG);
 	case B_NBF_BIG: return jwt_builder_time_offset(b, JWT_CLAIM_NBF, OFF_NBF_BIG);
+	case B_EXP_MAX: return jwt_builder_time_offset(b, JWT_CLAIM_EXP, LONG_MAX);
 	case B_OFF_IAT_BAD: return jwt_builder_time_offset(b, JWT_CLAIM_IAT, 1);
 	case B_KEY_NONE: return jwt_builder_setkey(b, JWT_ALG_NONE, NULL);
 	case B_KEY_OCT: return jwt_builder_setkey(b, JWT_ALG_NONE, jwks_item_get(bk_oct, 0));
@@ -650,6 +653,23 @@ static void check_generate(jwt_builder_t *b, const bst_t *s, time_t clock, const
 	else if (s->cb == CB_DROPKEY)
 		key = K_NONE;
 	json_t *eh = json_deep_copy(s->h), *ec = json_deep_copy(s->c);
+	/* clock + offset that no long can hold: there is no token that says what the builder was told -- generate has to refuse */
+	int unrepresentable = (s->nbf > 0 && s->nbf > LONG_MAX - (long)clock) || (s->exp > 0 && s->exp > LONG_MAX - (long)clock);
+	if (unrepresentable) {
+		vf_obs(vf_hash_mix(tok != NULL, 99));
+		if (tok)
+			vf_violation("token-despite-unrepresentable-time-claim", "after [%s]: clock + offset does not fit the type, yet generate returned %s", hist, tok);
+		else if (!jwt_builder_error(b) || !jwt_builder_error_msg(b)[0])
+			vf_violation("generate-fails-without-error", "after [%s]: generate returned NULL without an error", hist);
+		jwt_builder_error_clear(b);
+		vf_lfree(tok);
+		json_decref(eh);
+		json_decref(ec);
+		free(before);
+		free(after);
+		vf_now = T0;
+		return;
+	}
 	if (s->iat) json_object_set_new(ec, "iat", json_integer(clock));
 	if (s->nbf) json_object_set_new(ec, "nbf", json_integer(clock + s->nbf));
 	if (s->exp) json_object_set_new(ec, "exp", json_integer(clock + s->exp));
